@@ -356,6 +356,30 @@ func checkOutlines(b *harness.B, c *chaingen.Chain, cs consensus.State, blk type
 			b.Violate("C18/outline/codec-changes-outline", "the decoded outline has a different ID or missing list", wit)
 			continue
 		}
+		// a relay that trims what it forwards: the outline of the whole block as it came off the wire, the same subset
+		// removed from it afterwards - the same ID, the same missing list, and it still travels and completes
+		if len(omitted) > 0 {
+			full := gateway.OutlineBlock(chaingen.CloneBlock(blk), nil, nil)
+			var fb bytes.Buffer
+			fe := types.NewEncoder(&fb)
+			gateway.VerifEncodeOutline(&full, fe)
+			fe.Flush()
+			var relayed gateway.V2BlockOutline
+			fd := types.NewBufDecoder(fb.Bytes())
+			if !b.Guard("C18/outline/decode", func() any { return wit }, func() { gateway.VerifDecodeOutline(&relayed, fd) }) && fd.Err() == nil {
+				relayed.RemoveTransactions(om1, om2)
+				b.Count("outlines_trimmed_after_arriving_from_the_wire", 1)
+				if relayed.ID(cs) != id || !reflect.DeepEqual(normH(relayed.Missing()), normH(wantMissing)) {
+					b.Violate("C18/outline/trimmed-after-relay/id-or-missing-list-differs", fmt.Sprintf("an outline decoded from the wire and then trimmed by %d of %d transactions has another ID or missing list than the outline built without them", len(omitted), n), wit)
+				} else {
+					p1 := append([]types.Transaction(nil), om1...)
+					p2 := append([]types.V2Transaction(nil), om2...)
+					if got, miss := relayed.Complete(cs, p1, p2); len(miss) != 0 || !blockEqual(got, blk) {
+						b.Violate("C18/outline/trimmed-after-relay/does-not-complete", "an outline decoded from the wire, trimmed, and offered the removed transactions does not complete to the block", wit)
+					}
+				}
+			}
+		}
 		// completion from a superset, permuted
 		pool1 := append([]types.Transaction(nil), om1...)
 		pool2 := append([]types.V2Transaction(nil), om2...)
